@@ -366,6 +366,14 @@ def runUserSection (r : Report) (sec : Section) (user : String) (probes : List N
           let expectedOf : String → String := fun k => match implMap.find? (·.1 == k) with
             | some p => p.2
             | none => showAddr (inst.dispatch H (strKey k))
+          -- multi-key Del: the model produces the commands themselves (which keys travel together to which node)
+          if multiKey base then
+            let render (cs : List (String × List String)) : List String :=
+              (cs.map fun c => c.1 ++ "/" ++ "|".intercalate c.2).mergeSort (· ≤ ·)
+            let mineC := render (callCommands H inst user base strs)
+            let seenC := render (recs.map fun x => (x.1, x.2.2))
+            if mineC ≠ seenC then r := r.mismatch sec.idx l.idx (";".intercalate mineC) (";".intercalate seenC)
+            if mineC.length > 1 then r := r.addCover "call-del-split-over-several-nodes"
           for (addr, cmd, shown) in recs do
             r := r.addCover "call-command"
             -- the node must be one the property allows at all
@@ -373,16 +381,10 @@ def runUserSection (r : Report) (sec : Section) (user : String) (probes : List N
             let isDirect := match inst with | .direct n => n.repr == addr | _ => false
             if !isDirect && !memberOk mInst o then
               r := r.violation sec.idx l.idx s!"member-only: {user}.{method} sent {cmd} to {addr}, which owns no virtual node, conf=[{confInst}]"
-            else if multiKey base then
-              for k in shown do
-                if keys.contains k && expectedOf k != addr then
-                  r := r.violation sec.idx l.idx s!"dispatch: {user}.{method} sent {cmd} for key {k} to {addr} but the ring maps that key to {expectedOf k}, conf=[{confInst}]"
-            else
-              match keys with
-              | [k] =>
-                if expectedOf k != addr then
-                  r := r.violation sec.idx l.idx s!"dispatch: {user}.{method} sent {cmd} to {addr} but the ring maps its key {k} to {expectedOf k}, conf=[{confInst}] args=[{strsT}]"
-              | _ => r := r.mismatch sec.idx l.idx "one key" strsT
+            else if !cmdOk expectedOf (multiKey base) keys (addr, shown) then
+              -- `cmdOk` (Spec.lean) is proven sound for the model: `monitor_sound_dispatch`
+              let bad := if multiKey base then dedupSorted (shown.filter fun k => keys.contains k && expectedOf k != addr) else keys
+              r := r.violation sec.idx l.idx s!"dispatch: {user}.{method} sent {cmd} to {addr} but the ring maps its key {",".intercalate bad} to {",".intercalate (bad.map expectedOf)}, conf=[{confInst}] args=[{strsT}]"
     | _ => r := r.mismatch sec.idx l.idx "bad-op" (joinSp l.op)
   return r
 
@@ -408,7 +410,7 @@ def runSection (r : Report) (sec : Section) : Report := Id.run do
   if probes.any (fun p => p.kind = "r") then return r.mismatch sec.idx 0 "bad-cfg" "pointer probe"
   for l in sec.lines do
     r := { r with ops := r.ops + 1 }
-    match l.op with
+    match (if l.op.head? ∈ [some "hadd", some "haddr", some "haddw"] then "hashfault" :: l.op else l.op) with
     | ["repr", vs] =>
       let toks := vs.splitOn ","
       match toks.mapM parseTyped with
@@ -435,11 +437,59 @@ def runSection (r : Report) (sec : Section) : Report := Id.run do
       r := r.addCover s!"fault-get-{kind}"
       let expectP := if s.ring.isEmpty then "ok" else faultToken kind
       if s.ring.isEmpty then r := r.addCover "fault-get-empty-ring-string-not-called"
-      let mine := s!"P={expectP} locked=0 g=-"
+      -- the model's own observation of the lock: `Get`'s effects interrupted at the lookup (position 2)
+      let lockedM := if lockFree (lockAfter getEffs 2) then "0" else "1"
+      let mine := s!"P={expectP} locked={lockedM} g=-"
       let impl := joinSp l.obs
       if mine ≠ impl then r := r.mismatch sec.idx l.idx mine impl
       if kvStr l.obs "locked" "?" ≠ "0" then
         r := r.violation sec.idx l.idx s!"lock-leak: Get left the ring locked when String() of the key ended with {kind}: every later Add / Remove blocks for ever and no key is served any more"
+    | "hashfault" :: hop :: node :: restH =>
+      -- the k-th hash func call of the operation does not return: a panic under the write lock, inside a loop
+      let plainToks := (hop.drop 1).toString :: node :: restH.take (restH.length - 2)
+      let kM := (restH[restH.length - 2]?).bind String.toNat?
+      let fkind := restH.getLast?.getD ""
+      match parseOp plainToks, kM with
+      | some op, some k =>
+        let replicas : Int := match op with
+          | .add _ => (s.replicas : Int)
+          | .addR _ c => c
+          | .addW _ w => weightReplicas s.replicas w
+          | .remove _ => 0
+        let rcalls := if s.nodes.contains op.repr then s.replicas else 0
+        let total := rcalls + clampReplicas s.replicas replicas
+        let implP := kvStr l.obs "P" "?"
+        let lockedM := if lockFree (lockAfter addEffs 3) then "0" else "1"
+        if kvStr l.obs "locked" "?" ≠ lockedM then r := r.mismatch sec.idx l.idx s!"locked={lockedM}" s!"locked={kvStr l.obs "locked" "?"}"
+        if kvStr l.obs "locked" "?" ≠ "0" then
+          r := r.violation sec.idx l.idx s!"lock-leak: [{joinSp l.op}] left the ring locked after the hash func ended with {fkind}: every later operation blocks for ever"
+        if k < total then
+          r := r.addCover s!"hash-fault-{fkind}"
+          r := r.addCover (if k < rcalls then "hash-fault-in-removal-loop" else if k == rcalls then "hash-fault-first-insertion" else "hash-fault-in-insertion-loop")
+          if implP ≠ faultToken fkind then r := r.mismatch sec.idx l.idx s!"P={faultToken fkind}" s!"P={implP}"
+          s := stepHashFault H s op.node replicas k
+          -- compared: key slice (order included), ring, node set. NOT the lookups: on the unsorted key slice a failure
+          -- inside the insertion loop leaves, Go's sort.Search bisects while the model's `searchGE` scans — they agree on
+          -- sorted slices only (every reachable state), so lookups in this broken state are outside the model
+          let noG := fun (t : String) => !(t.startsWith "P=") && !(t.startsWith "locked=") && !(t.startsWith "g=")
+          let implState := joinSp (l.obs.filter noG)
+          let mine := joinSp (((observe H s probes).splitOn " ").filter noG)
+          if mine ≠ implState then r := r.mismatch sec.idx l.idx mine implState
+          -- the code has no rollback: the ring is not in a reachable state any more (`hash_panic_in_insertion_breaks_property`);
+          -- nothing further in this section is judged
+          break
+        else
+          r := r.addCover "hash-fault-not-reached"
+          if implP ≠ "ok" then r := r.mismatch sec.idx l.idx "P=ok" s!"P={implP}"
+          s := step H s op
+          m := specStep s.replicas m op
+          let implState := joinSp (l.obs.filter fun t => !(t.startsWith "P=") && !(t.startsWith "locked=") && !(t.startsWith "f="))
+          let mine := observe H s probes
+          if mine ≠ implState then r := r.mismatch sec.idx l.idx mine implState
+          match (kv? l.obs "g").bind parseOutcomes with
+          | some g => prev := g
+          | none => pure ()
+      | _, _ => r := r.mismatch sec.idx l.idx "bad-op" (joinSp l.op)
     | ["storm", _, _, keysT, progT] =>
       match (keysT.splitOn ",").mapM parseValue, parseProg progT with
       | some keys, some prog =>
@@ -542,6 +592,9 @@ def runSection (r : Report) (sec : Section) : Report := Id.run do
           let okAllowed := nth == 2
           if !(implP = faultToken fkind || (implP = "ok" && okAllowed)) then
             r := r.mismatch sec.idx l.idx s!"P={faultToken fkind}" s!"P={implP}"
+          -- nth = 1: `Remove` stopped at its lock-free prologue; nth = 2: `AddWithReplicas` at its prologue (position 0)
+          let lockedM := if lockFree (lockAfter (if nth == 1 then removeEffs else addEffs) 0) then "0" else "1"
+          if kvStr l.obs "locked" "?" ≠ lockedM then r := r.mismatch sec.idx l.idx s!"locked={lockedM}" s!"locked={kvStr l.obs "locked" "?"}"
           if kvStr l.obs "locked" "?" ≠ "0" then
             r := r.violation sec.idx l.idx s!"lock-leak: [{joinSp l.op}] left the ring locked after String() ended with {fkind}: every later operation blocks for ever"
           if fired && nth == 2 && m.cnt op.repr > 0 then r := r.addCover "fault-after-remove-node-gone"
@@ -564,6 +617,12 @@ def runSection (r : Report) (sec : Section) : Report := Id.run do
         let isMember := m.cnt op.repr > 0
         let collAfter := noCollision H m
         if hasTwins m then r := r.addCover "ring-has-twos-complement-twins"
+        -- one node's virtual nodes on the same hash (the class of seeded C15-9)
+        if m.any (fun p => let pts := points H p.1.repr p.2; pts.eraseDups.length < pts.length) then
+          r := r.addCover "ring-node-collides-with-itself"
+          match op with
+          | .remove _ => if wasMember then r := r.addCover "remove-from-ring-with-self-collisions"
+          | _ => pure ()
         if (mPre.find op.repr).any (fun p => p.1 != opNode op) then r := r.addCover "op-on-slot-held-by-other-value"
         let segs := if gated then splitBar l.obs else [l.obs]
         let finalObs := (segs.getLast?.getD []).filter fun t => t ≠ "DATARACE" && !(t.startsWith "P=") && !(t.startsWith "locked=")
